@@ -127,8 +127,11 @@ impl Epoch {
         iers_only: bool,
         provider: L,
     ) -> Option<f64> {
+        // Compare durations and not floating point seconds: the latter round up to the next
+        // leap second in the last few hundred nanoseconds before it.
+        let tai_duration = self.to_tai_duration();
         for leap_second in provider.rev() {
-            if self.to_tai_duration().to_seconds() >= leap_second.timestamp_tai_s
+            if tai_duration >= leap_second.timestamp_tai_s * Unit::Second
                 && (!iers_only || leap_second.announced_by_iers)
             {
                 return Some(leap_second.delta_at);
